@@ -292,13 +292,15 @@ class ForwardScheduler(IScheduler):
             if _task.end is None:
                 if is_leaf:
                     left_hours = max(_task.estimate - _task.spent, 0)
-                    start = max(_task.start, datetime.now())
-                    _task.end = max(
-                        self.__shift_by_resource_usage_and_calendar(
-                            resource, resource_usage, start, _task, left_hours
-                        ),
-                        datetime.now()
+                    # work is reserved neither before the project start nor in the past;
+                    # a clock that is not later than the project start never matters
+                    clock_matters = datetime.now() > self.__start
+                    start = max(_task.start, datetime.now() if clock_matters else self.__start)
+                    _task.end = self.__shift_by_resource_usage_and_calendar(
+                        resource, resource_usage, start, _task, left_hours
                     )
+                    if clock_matters:
+                        _task.end = max(_task.end, datetime.now())
                 else:
                     _task.end = max([t.end for t in _task.children if t.end is not None])
 
